@@ -152,8 +152,8 @@ PLAN = {
         'level': 'proof',
         'units': ['util', 'fixed_session', 'phon'],
         'technique': 'Verus: smart_quoter == pointwise curl maps with loop invariants; placement clause (applied once, after splitting, only with the option on) in both list functions',
-        'claim': 'Proof that smart_quoter maps straight quotes before a non-empty word to opening and after it to closing curved quotes and changes nothing else (nothing at all for punctuation-only text), and that both methods apply it exactly when the option is on, to the split parts that every non-raw candidate is wrapped in.',
-        'note': COMMON_TRUST + 'The relational corollary (uncurl(list on) == list off) is not yet a checked lemma.',
+        'claim': 'Proof that smart_quoter maps straight quotes before a non-empty word to opening and after it to closing curved quotes and changes nothing else (nothing at all for punctuation-only text), and that both methods apply it exactly when the option is on, to the split parts that every non-raw candidate is wrapped in.  Relational clause at spec level over the proved list functions: lemma_c17_fixed (fixed method, every text) and lemma_c17_phonetic (phonetic method, every text whose raw form coincides with no other candidate -- the complement is the recorded known finding): the list with the option on and the list with it off have the same length and, position by position, the same rank and the same text once curly quotes are mapped back.',
+        'note': COMMON_TRUST + 'The relational lemmas rest on one more axiom about std sorts: a comparison sort sees its elements only through the comparator (proved to be a function of the rank tags), so the arrangement it chooses is a function of the tag sequence.  Equality of the preselected index under the two settings is not a lemma (bounded check smart_quote).',
     },
     'C18': {
         'bounded': ['emoji_tables', 'phonetic_api', 'update_engine'],
